@@ -6,7 +6,7 @@ import math
 RULE = ("random pairs of planar segments and polylines (1..4 segments each, float data): transversal crossings strictly inside segments "
         "(several per pair), disjoint pairs with overlapping and with disjoint bounding boxes; a few degree-2/3 and rational pairs (soundness "
         "conditions only).  Non-trivial: more than one segment on a side or at least one crossing; distinct = distinct (A, B)."
-        " Also: single-span operands that clean() could reduce; the same pairs translated far from the origin (offsets 1e4..2.5e5); weighted polylines (degree 1, positive weights: same crossing points); the planar figures embedded in planes of 3-space.")
+        " Also: single-span operands that clean() could reduce; the same pairs translated far from the origin (offsets 1e4..2.5e5); weighted polylines (degree 1, positive weights: same crossing points); the planar figures embedded in planes of 3-space; a vertex of A on a double point of B (soundness and no duplicates).")
 EXPLANATION = ("L3: the exact crossing oracle (`geom.cross`, Cramer over Q on every pair of segments) lists all meeting pairs and classifies the "
                "pair as transversal / touching / degenerate; every returned pair is re-evaluated (|A(t)-B(u)| <= 1e-6, inside both intervals, no "
                "duplicates), disjoint curves must give the empty tuple, and every transversal crossing must be present.")
@@ -46,9 +46,13 @@ def run_case(ctx, case):
         degenerate, touching, pairs = o[1]
         expected = [(float(t), float(u)) for t, u in pairs]
         rec.count("class", "degenerate" if degenerate else ("touching" if touching else ("crossing" if pairs else "disjoint")))
-        if degenerate or touching:
+        if degenerate:
             rec.case(case, nontrivial=False)
             return          # outside the guaranteed classes
+        if touching:
+            # a meeting point on a vertex / an end of a segment: completeness is not demanded (not a transversal crossing strictly
+            # inside two segments), but whatever is returned must still be inside the intervals, a meeting point, and free of duplicates
+            expected = None
     # weighted polylines (degree 1, positive weights): the same point sets as the unweighted polylines, other parametrisation — the
     # crossings are the same points
     polyr = (not poly) and kv_info(A[0])[0] == 1 and kv_info(B[0])[0] == 1 and all(w > 0 for X in (A, B) if X[2] for w in X[2])
@@ -200,6 +204,25 @@ def run(ctx):
             A = polyline(rng, na, ((-4, 4), (-4, 4)))
             B = polyline(rng, nb, ((-4, 4), (-4, 4)))
         run_case_far(ctx, ser(dict(kind="pair", label=label, A=A, B=B)))
+    for i in range(budget(ctx, 14, 140)):
+        # B passes twice through one point X (two of its segments cross there) and A has a *vertex* at X: four segment pairs meet in
+        # two parameter pairs that share the parameter of A; knots that are no binary fractions, so that the computed parameters carry
+        # rounding noise.  Coordinates: quarters (X exactly on every segment after conversion to float) or tenths (generic after rounding).
+        den = rng.choice([4, 4, 10])
+        cx, cy = F(rng.randint(-8, 8), den), F(rng.randint(-8, 8), den)
+        d1 = (F(rng.randint(1, 4)), F(rng.randint(1, 4)))
+        d2 = (F(rng.randint(1, 4)), -F(rng.randint(1, 4)))
+        al, be, ga, de_ = (F(rng.randint(2, 9), den) for _ in range(4))
+        B = dict(U=[F(0), F(0)] + rng.choice([[F(1, 3), F(2, 3)], [F(3, 10), F(7, 10)], [F(1, 7), F(3, 5)]]) + [F(1), F(1)],
+                 P=[(cx - al * d1[0], cy - al * d1[1]), (cx + be * d1[0], cy + be * d1[1]),
+                    (cx + ga * d2[0], cy + ga * d2[1]), (cx - de_ * d2[0], cy - de_ * d2[1])], W=None)
+        e1 = (F(rng.randint(-2, 2), 4), -F(rng.randint(4, 9), 4))
+        e2 = (F(rng.randint(-2, 2), 4), F(rng.randint(4, 9), 4))
+        A = dict(U=[F(0), F(0), rng.choice([F(3, 10), F(1, 3), F(1, 2), F(5, 7)]), F(1), F(1)],
+                 P=[(cx + e1[0], cy + e1[1]), (cx, cy), (cx + e2[0], cy + e2[1])], W=None)
+        if rng.random() < 0.25:
+            A, B = B, A
+        run_case(ctx, ser(dict(kind="pair", label="vertex-on-doublepoint", A=A, B=B)))
     for i in range(budget(ctx, 12, 120)):
         # single-span operands that clean() could simplify: they must come back untouched
         A, ka = reducible_bezier(rng, 2)
